@@ -710,6 +710,7 @@ class Models(object):
         raise Undecided("str.%s on symbolic operands" % name)
 
     def str_strip(self, s, which, chars):
+        self._lstrip_budget = 3
         if chars is None:
             chars = _WS
         atoms = list(s.atoms)
@@ -759,6 +760,28 @@ class Models(object):
                     nonempty_ = a.nonempty if isinstance(a, Val) else a.u.nonempty
                     if nonempty_ and not any(allowed(c, "first") for c in chars):
                         break
+                    if isinstance(a, Val) and len(chars) == 1 and getattr(self, "_lstrip_budget", 3) > 0:
+                        # fork with a refinement: the hole starts with the stripped character (peel it off,
+                        # bounded number of times) or it does not
+                        ch = chars
+                        self.used("tmpl-lstrip-refinement-fork")
+                        if self.ctx.branch(z3.PrefixOf(z3.StringVal(ch), a.v), "hole-starts-with-%r" % ch):
+                            v2 = self.ctx.fresh_str("rest")
+                            self.ctx.assume(a.v == z3.Concat(z3.StringVal(ch), v2))
+                            atoms[0] = Val(v2, excl=a.excl, nonempty=False, excl_last=a.excl_last, tag=a.tag)
+                            self._lstrip_budget = getattr(self, "_lstrip_budget", 3) - 1
+                            try:
+                                if self._lstrip_budget == 0:
+                                    self.ctx.assume(z3.Not(z3.PrefixOf(z3.StringVal(ch), v2)))
+                                    self.ctx.truncated += 1
+                                    atoms[0] = Val(v2, excl=a.excl, nonempty=False, excl_first=a.excl_first | {ch}, excl_last=a.excl_last, tag=a.tag)
+                                    break
+                                continue
+                            finally:
+                                pass
+                        else:
+                            atoms[0] = Val(a.v, excl=a.excl, nonempty=a.nonempty, excl_first=a.excl_first | {ch}, excl_last=a.excl_last, tag=a.tag)
+                            break
                     raise Undecided("lstrip: hole may start with a stripped character")
                 if isinstance(a, IntLit):
                     if any(c in "0123456789-" for c in chars):
